@@ -6,7 +6,7 @@ use std::collections::HashMap;
 
 use crate::universe::*;
 
-pub trait Family: Sync {
+pub trait Family: Sync + Send {
     fn name(&self) -> String;
     fn len(&self) -> u64;
     fn get(&self, idx: u64) -> Case;
@@ -854,7 +854,7 @@ pub struct Expand<'a> {
     pub label: String,
     pub base: &'a dyn Family,
     pub mult: u64,
-    pub f: Box<dyn Fn(Case, u64) -> Case + Sync + 'a>,
+    pub f: Box<dyn Fn(Case, u64) -> Case + Sync + Send + 'a>,
 }
 impl Family for Expand<'_> {
     fn name(&self) -> String {
